@@ -63,6 +63,8 @@ op('sign_p', 1, _same)(lambda ns, a: ns.sign(a * a + 0.5) * a)
 op('square', 1, _same, poly=True)(lambda ns, a: ns.square(a))
 op('negative', 1, _same, poly=True)(lambda ns, a: ns.negative(a))
 op('neg', 1, _same, poly=True)(lambda ns, a: -a)
+# real / imaginary part and conjugate of real data (identity, zero, identity): their pullbacks must accumulate like every other one
+op('real', 1, _same)(lambda ns, a: ns.real(a)); op('imag_p', 1, _same)(lambda ns, a: ns.imag(a) + a); op('conjugate', 1, _same)(lambda ns, a: ns.conjugate(a))
 op('log_p', 1, _same)(lambda ns, a: ns.log(a * a + 1.5))
 op('log1p_p', 1, _same)(lambda ns, a: ns.log1p(a * a))
 op('sqrt_p', 1, _same)(lambda ns, a: ns.sqrt(a * a + 0.5))
@@ -128,7 +130,7 @@ def _dotc(shps, p):
     except ValueError: return None
 op('dot_c', 1, _dotc, poly=True)(lambda ns, a, c, side='r': ns.dot(a, c) if side == 'r' else ns.dot(c, a))
 op('outer', 2, lambda s, p: (s[0][0], s[1][0]) if len(s[0]) == 1 and len(s[1]) == 1 else None, poly=True)(lambda ns, a, b: ns.outer(a, b))
-op('trace', 1, lambda s, p: () if len(s[0]) == 2 and s[0][0] == s[0][1] else None, poly=True)(lambda ns, a: ns.trace(a))
+op('trace', 1, lambda s, p: () if len(s[0]) == 2 else None, poly=True)(lambda ns, a: ns.trace(a))
 
 # buffers: allocate, write entries (also twice), read
 def _buf(shps, p): return (p['n'],)
@@ -187,7 +189,7 @@ def _symd(ns, a):
     n = numpy.shape(a)[0]; return a + a.T + numpy.diag(2.0 * numpy.arange(1., n + 1))        # symmetric with well separated eigenvalues
 op('tile2', 1, lambda s, p: (2 * s[0][0],) if len(s[0]) == 1 else None)(lambda ns, a: ns.tile(a, 2))
 op('diag_v', 1, lambda s, p: (s[0][0], s[0][0]) if len(s[0]) == 1 else None)(lambda ns, a: ns.diag(a))
-op('diag_m', 1, lambda s, p: (s[0][0],) if _sqs(s, p) else None)(lambda ns, a: ns.diag(a))
+op('diag_m', 1, lambda s, p: (min(s[0]),) if len(s[0]) == 2 else None)(lambda ns, a: ns.diag(a))
 op('triu', 1, _sqs)(lambda ns, a: ns.triu(a)); op('tril', 1, _sqs)(lambda ns, a: ns.tril(a))
 op('symvec', 1, lambda s, p: ((s[0][0] * (s[0][0] + 1)) // 2,) if _sqs(s, p) else None)(lambda ns, a: ns.symvec(a + a.T))
 op('vecsym', 1, lambda s, p: {3: (2, 2), 6: (3, 3)}.get(s[0][0]) if len(s[0]) == 1 else None)(lambda ns, a: ns.vecsym(a))
@@ -289,6 +291,10 @@ def single_op_programs(N=4):
         out.append(Program(N, mat + [(2, 'getitem', (1,), {'sl': sl})], 'getitem2d[%s]' % (sl,)))
     for shape in ((N, 1), (1, N), (-1,)):
         out.append(Program(N, [(1, 'sin', (0,), {}), (2, 'reshape', (1,), {'shape': shape})], 'reshape%s' % (shape,)))
+    # trace and diagonal of non-square matrices (NumPy: the first min(M, N) diagonal entries)
+    for shape in ((N, 1), (1, N)):
+        for nm_ in ('trace', 'diag_m'):
+            out.append(Program(N, [(1, 'sin', (0,), {}), (2, 'reshape', (1,), {'shape': shape}), (3, nm_, (2,), {})], '%s[%dx%d]' % ((nm_,) + shape)))
     out.append(Program(N, mat + [(2, 'transpose', (1,), {}), (3, 'reshape', (2,), {'shape': (N,)})], 'reshape[noncontig]'))
     out.append(Program(N, [(1, 'sin', (0,), {}), (2, 'sum', (1,), {})], 'sum'))
     for ax in (0, 1, -1, None):
